@@ -397,6 +397,70 @@ def run(ctx):
     if not okd:
         ctx.violation("R4-IMAGES", frame.path, "queued-image-not-drawn", "images queued in the first pass are not drawn from images.drain(..)", sites=[frame.loc])
 
+    # ---------------- R9 wide characters: history independence of the column walk ----------------------------------
+    ctx.rule("R9-WIDE", "second pass: a column is advanced by the constant 1 only where the new cell is known not to be a multi-column character (not a Char, width 0, "
+                        "or under an image), so an unchanged wide character hides its trailing cells exactly as a repainted one does; first pass: a changed cell whose "
+                        "old content was a wide character damages the cells that character covered", floor=3)
+    # (a) every `pos.col += 1`
+    incs = []
+    walkers = {l for l, nm in frame.varnames.items() if nm == "pos" and frame.local_ty(l) == "terminal::Position"}
+    adds = {}     # tuple local -> assign statement of `pos.col + 1`
+    for bb_, si_, s_ in frame.assigns():
+        rv_ = s_["rv"]
+        if rv_["k"] == "bin" and rv_["op"] in ("AddWithOverflow", "Add") and expr(frame, rv_["b"]) == "1" and rv_["a"].get("k") in ("copy", "move") \
+                and rv_["a"]["place"]["l"] in walkers and [e_.get("name") for e_ in rv_["a"]["place"]["p"]] == ["col"]:
+            adds[s_["place"]["l"]] = (bb_, s_)
+    for bb_, si_, s_ in frame.assigns():
+        rv_ = s_["rv"]
+        if s_["place"]["l"] in walkers and [e_.get("name") for e_ in s_["place"]["p"]] == ["col"] and rv_["k"] == "use" and rv_["a"].get("k") in ("copy", "move") \
+                and rv_["a"]["place"]["l"] in adds:
+            incs.append((bb_, adds[rv_["a"]["place"]["l"]][1]))
+    if not incs:
+        ctx.anchor("R9-WIDE", "second-pass/col-increment", "no `pos.col += 1` found in frame(): the column walk is not understood")
+    for bb_, s_ in incs:
+        why = None
+        for x in range(len(frame.blocks)):
+            t_ = frame.blocks[x]["term"]
+            if t_["k"] != "switch" or not fcfg.dominates(x, bb_) or x == bb_:
+                continue
+            succs = [(v, tg) for v, tg in zip(t_["vals"], t_["targets"])] + [(None, t_["otherwise"])]
+            taken = [(v, tg) for v, tg in succs if fcfg.edge_dominates(x, tg, bb_)]
+            if len(taken) != 1:
+                continue
+            v, tg = taken[0]
+            e_ = expr(frame, t_["d"])
+            if re.fullmatch(r"discr\(.*\.kind\)", e_) and "arg1.front" in e_:
+                # Char is variant 0 of CellKind: any other taken value / the otherwise edge of a switch listing 0 means "not a character"
+                if (v is not None and v != "0") or (v is None and "0" in t_["vals"]):
+                    why = "new cell is not a character"
+            if re.search(r"UnicodeWidthChar::width\(", e_) and re.match(r"^Eq\(.*, 0\)$|^Eq\(0, ", e_) and v != "0":
+                why = why or "character of width 0"
+            if re.search(r"\.marks\b", e_) and re.search(r"discr\(|Eq\(|PartialEq", e_):
+                # a test of the mark: accepted when the taken side is `== Ignored`
+                vv = value_variants(frame, t_["d"]) if False else None
+                if re.search(r"Ignored", e_) and v != "0":
+                    why = why or "cell is under an image (Ignored)"
+        ctx.instance("R9-WIDE", {"increment_by_one_line": s_["line"], "justified_by": why})
+        if why is None:
+            ctx.violation("R9-WIDE", frame.path, "skip-advance", "a column is skipped with `pos.col += 1` although the cell may hold an unchanged wide character: its trailing cell is then examined "
+                          "on its own and painted over the character's right half (from-scratch painting skips it), e.g. frames [中 x a b] then [中 y a b]", sites=["%s:%d" % (frame.file, s_["line"])])
+    # (b) old wide character -> damage its footprint
+    wide_dmg = []
+    for f in dmg_fill:
+        og_ = origins(frame, f["t"]["args"][0])
+        for o in og_:
+            if o[0] == "call" and re.search(r"SurfaceMut::view_mut$", o[2]):
+                vt_ = frame.blocks[o[1]]["term"]
+                cols = expr(frame, vt_["args"][2]) if len(vt_["args"]) > 2 else ""
+                if "UnicodeWidthChar::width(" in cols:
+                    side = _iter_side(re.search(r"UnicodeWidthChar::width\((.*)\)", cols).group(1)) or ""
+                    wide_dmg.append((f, cols, "arg1.back" in side and "arg1.front" not in side))
+    okb = any(x[2] for x in wide_dmg)
+    ctx.instance("R9-WIDE", {"old_wide_character_footprint_damaged": okb, "fills": [c[:120] for _, c, _ in wide_dmg]})
+    if not okb:
+        ctx.violation("R9-WIDE", frame.path, "old-wide-not-damaged", "when a wide character is replaced, the cells it covered are not marked Damaged: the terminal blanks the character's right "
+                      "half but an unchanged cell there is never repainted, e.g. frames [中 x a b] then [q x a b] leave column 1 blank", sites=[frame.loc])
+
     # ---------------- R5 epilogue + run_render ----------------------------------------------------
     ctx.rule("R5-EPILOGUE", "frame Ok path: swap(front, back) then front.clear(); run_render: frames_drop -> clear, Resize -> clear + new(true), drawn front reaches frame", floor=5)
     swp = [(bb, t) for bb, t in frame.calls() if call_matches(t, r"^std::mem::swap$") and {arg_place(frame, t, 0), arg_place(frame, t, 1)} == {"(*_1).front", "(*_1).back"}]
